@@ -122,8 +122,8 @@ func child(a lib.Args) {
 		lib.ReadReplayCase(a.Replay, &c)
 		cases = []Case{c}
 	} else {
-		nLoop := a.Pick(36, 240)
-		nBoff := a.Pick(260, 2500)
+		nLoop := a.Pick(36, 480)
+		nBoff := a.Pick(260, 5000)
 		cases = append(cases, genLoopCases(rng, nLoop, a.Tier == "thorough")...)
 		for i := 0; i < nBoff; i++ {
 			cases = append(cases, genBoffCase(rng.Fork(), i))
